@@ -2,7 +2,9 @@
 From Coq Require Import List NArith Bool.
 Import ListNotations.
 From PF Require Import Opcodes RefTable Config Sim Ref Lex Envelope Oracles.
-From PF.proofs Require Import Refine Run PropsR LexRT PropsB Examples.
+From PF Require Import Entropy Gen.
+From PF Require Import SrcStdlibP.
+From PF.proofs Require Import FinR Refine Run PropsR LexRT PropsB Examples.
 
 (* the lexer (Lex.v: written from pickletools' argument readers, with the domain checks the
    property lists) decodes the bytes of every run of the envelope completely, and gives back
@@ -29,6 +31,27 @@ Theorem C04_one : forall o a rest, arg_wf o a = true ->
   lex_one (encode (o, a) ++ rest) = Some ((o, a), rest).
 Proof. exact lex_one_encode. Qed.
 Print Assumptions C04_one.
+
+(* END TO END, on the bit-exact model of the generator (level F, Gen.generate_internal - the model
+   suite S2 compares byte for byte with the implementation): whatever entropy source, protocol,
+   ranges, flags and mutators, the bytes it returns satisfy the byte-level oracle.  Through
+   FinR.F_in_R (every level-F run is a level-R run whose tokens serialise to the returned bytes).
+   names_ok / fmt_ok: the GLOBAL name table and the float formatter produce newline-free,
+   well-formed text (checked on the real table / formatter by suite S2 and SrcConsts);
+   cfg_small: the opcode range bounds are below 2^32-2; out_fits: the output is shorter than 2^64 *)
+Theorem C04_generated : forall e c src r,
+  names_ok e -> fmt_ok e -> cfg_small c -> generate_internal e id_order c src = Ok r -> out_fits r ->
+  oracle_C04 (g_out r) = true.
+Proof. intros e c src r Hn Hf Hc Hg Hfit. exact (gen_C04 e c src r Hn Hf Hc Hg Hfit). Qed.
+Print Assumptions C04_generated.
+
+(* ... and with the name table of the CURRENT source (gen/SrcStdlib.v is regenerated from the file
+   emission.rs embeds; SrcStdlibP.src_names_ok decides names_ok over all of its entries) *)
+Theorem C04_generated_src : forall fmt c src r,
+  fmt_ok (src_env fmt) -> cfg_small c -> generate_internal (src_env fmt) id_order c src = Ok r -> out_fits r ->
+  oracle_C04 (g_out r) = true.
+Proof. intros fmt c src r Hf Hc Hg Hfit. exact (C04_generated (src_env fmt) c src r (src_names_ok fmt) Hf Hc Hg Hfit). Qed.
+Print Assumptions C04_generated_src.
 
 Example C04_nonvacuous : run_R (ex_cfg V4 7) true ex_steps2 /\ fits (ex_cfg V4 7) true ex_steps2
   /\ oracle_C04 (serialize (run_tokens (ex_cfg V4 7) true ex_steps2)) = true.
